@@ -364,6 +364,11 @@ class Sec(Driver):
             return BAD("accept-vs-reject", "refused (%s)" % reason,
                        "accepted as key with public pair %r; key.sec() = %s; canonical encoding of the same point: %s" % (facts[0], facts[2].hex(), same_point_as),
                        n=calls, clause=clause, reason=reason)
+        if reason in ("x>=p", "coord>=p", "prefix", "length") and low[True][0] == "pair":
+            # length, prefix and coordinate range are decided by the strict low-level decoder itself (curve membership of an
+            # uncompressed point is not: that is left to the key level, see ASSUMPTIONS)
+            return BAD("strict-decoder-accepts", "sec_to_public_pair(strict=True) refuses (%s)" % reason, "returned %r" % (low[True][1],), n=calls,
+                       clause="sec-strict-decoder:" + reason, reason=reason)
         L = len(blob)
         shape = "len33" if L == 33 else "len65" if L == 65 else "other-length"
         return OK("refused:%s:%s:%s%s" % (reason, shape, facts, "" if low[False][0] == "exc" else ":lax-accepts"), n=calls)
